@@ -1014,6 +1014,9 @@ class NetCDFRead(IORead):
             "dataset_compliance": {None: {"non-compliance": {}}},
             "component_report": {},
             "auxiliary_coordinate": {},
+            # The geometry container variable (or None) of the parent
+            # for which each of them was created
+            "auxiliary_coordinate_geometry": {},
             "cell_measure": {},
             "dimension_coordinate": {},
             "domain_ancillary": {},
@@ -3957,7 +3960,18 @@ class NetCDFRead(IORead):
                     ncvar, parent_ncvar=field_ncvar
                 )
 
-                if ncvar in g["auxiliary_coordinate"]:
+                # The node coordinates (CF>=1.8) of an auxiliary
+                # coordinate construct depend on the geometry
+                # container of the parent variable, so only re-use a
+                # construct that was created for the same one.
+                geometry_ncvar = self._get_geometry(
+                    field_ncvar, return_ncvar=True
+                )
+                if (
+                    ncvar in g["auxiliary_coordinate"]
+                    and g["auxiliary_coordinate_geometry"].get(ncvar)
+                    == geometry_ncvar
+                ):
                     coord = self._copy_construct(
                         "auxiliary_coordinate", field_ncvar, ncvar
                     )
@@ -3966,6 +3980,7 @@ class NetCDFRead(IORead):
                         field_ncvar, ncvar, f
                     )
                     g["auxiliary_coordinate"][ncvar] = coord
+                    g["auxiliary_coordinate_geometry"][ncvar] = geometry_ncvar
 
                 # ----------------------------------------------------
                 # Turn a
